@@ -535,6 +535,8 @@ def g_case(item):
     for op in ans["ops"]:
         loops = op["loops"]
         o1, o2 = (loops[0], loops[1]) if len(loops) >= 2 else ([], loops[0] if loops else [])
+        if op.get("examined") is not None:
+            o2 = op["examined"]      # the directories in the order the main loop examined them (links are skipped by both)
         ops.append(f"{{| o_fix := {gbool(op['fix'])}; o_cleanup := {gbool(op['cleanup'])}; "
                    f"o_ord1 := {glist(gk(tkey(k)) for k in o1)}; o_ord2 := {glist(gk(tkey(k)) for k in o2)}; "
                    f"o_after := {glist(g_o(e) for e in op['after'])} |}}")
@@ -885,8 +887,12 @@ def run(c: Check):
             items.append((case, ans))
         else:
             c.count("not-representable")
+    known_open = {k["key"] for k in c.known() if k.get("property") == "C20" and k.get("status") == "open"}
+
     def shrunk(kv):
         key, (what, data) = kv
+        if key in known_open:            # recorded finding: reported as such, no descent on the real code
+            return key, what, data
         small, best = shrink(c, data["case"], key)
         return (key,) + (best if best is not None else (what, data))
 
@@ -975,8 +981,9 @@ def run(c: Check):
         c.traces += len(graphs)
     c.level_assumptions = [
         "symbolic links, rename and unlink are atomic and behave as POSIX says; the kernel follows at most 40 links",
-        "the order in which pathlib.Path.glob yields entries is the file system's: recorded from the run and given to the "
-        "model; the theorems hold for every order",
+        "the order in which pathlib.Path.glob yields entries is the file system's, and the main loop may sort them: the first "
+        "loop's order is recorded from glob, the main loop's from the calls to tools.jobs.load_job (one per examined "
+        "directory), and given to the model; the theorems hold for every order",
         "job data = the directory content other than params.json (which --cleanup rewrites) and the marker files; "
         "links from outside jobs/ (xp/<name>/jobs/...) to a moved directory are not modelled",
         "identifier half: implementation-side oracle only in this file; the model tie (deprecated_same_ident on Hash.v) "
